@@ -17,7 +17,7 @@ REPO = os.environ.get("VERIF_REPO", "/repo")
 OUTDIR = os.path.join(os.path.dirname(os.path.abspath(__file__)), "..", "coq", "theories")
 # generated file -> functions (one file per group of properties: bfs / dfs are tied to C02, C03; expand_to_target to C06)
 GROUPS = [("PySrcSd.v", ["expand_bfs", "expand_dfs"]), ("PySrcSdTarget.v", ["expand_to_target"]), ("PySrcSdMin.v", ["expand_minimal_spaces"]),
-          ("PySrcSdASeeds.v", ["expand_attractor_seeds"])]
+          ("PySrcSdASeeds.v", ["expand_attractor_seeds"]), ("PySrcSdScc.v", ["attach_scc_subdiagram"])]
 
 class Unsupported(Exception):
     pass
@@ -28,11 +28,12 @@ def fail(node, why):
 COQ_TY = {"nat": "nat", "optnat": "(option nat)", "bool": "bool", "natlist": "(list nat)", "optnatlist": "(option (list nat))",
           "natset": "(list nat)", "space": "space", "optspace": "(option space)", "stack": "(list (nat * option (list nat)))",
           "spacelist": "(list space)", "pnobj": "unit", "unit": "unit", "optspacelist": "(list (option space))", "retained": "retained",
-          "statelist": "(list state)", "netobj": "unit", "graphobj": "unit", "nfvstape": "(list (list nat))"}
+          "statelist": "(list state)", "netobj": "unit", "graphobj": "unit", "nfvstape": "(list (list nat))",
+          "idmap": "(list (nat * nat))", "sdobj": "sd", "qtape": "(list (option bool))", "natlist_qtape": "(list nat * list (option bool))"}
 DFLT = {"nat": "0", "optnat": "(@None nat)", "bool": "false", "natlist": "(@nil nat)", "optnatlist": "(@None (list nat))",
         "natset": "(@nil nat)", "space": "(@nil (option bool))", "optspace": "(@None space)", "stack": "(@nil (nat * option (list nat)))",
         "spacelist": "(@nil space)", "pnobj": "Datatypes.tt", "optspacelist": "(@nil (option space))", "retained": "(@nil (nat * bool))",
-        "statelist": "(@nil state)", "netobj": "Datatypes.tt", "graphobj": "Datatypes.tt", "nfvstape": "tape"}
+        "statelist": "(@nil state)", "netobj": "Datatypes.tt", "graphobj": "Datatypes.tt", "nfvstape": "tape", "idmap": "(@nil (nat * nat))", "qtape": "tape"}
 OPT_OF = {"nat": "optnat", "natlist": "optnatlist", "space": "optspace"}
 
 # function -> file, arguments (after sd), local types, fuel of each `while` in order of appearance
@@ -64,6 +65,11 @@ FUNCS = [
                "successor_pn": "pnobj", "successor_graph": "graphobj", "avoid_or_none": "optspacelist", "avoid": "spacelist",
                "avoid_restricted": "spacelist", "y": "space", "retained_set": "retained", "successor_seeds": "statelist", "tape_": "nfvstape"},
          loopvars={"x": "space"}, fuels=["fuel", "(S (match successors with Some l_ => length l_ | None => 0 end))"]),
+    dict(name="attach_scc_subdiagram", path="biobalm/_sd_algorithms/expand_source_SCCs.py", scc=True, no_wrapper=True,
+         args=[("scc_sd", "sdobj"), ("attach_at", "nat"), ("check_maa", "bool")], ret="natlist_qtape",
+         locs={"node_id_map": "idmap", "attach_at_space": "space", "min_traps": "natlist", "scc_node_space": "space", "extended_node_space": "space",
+               "main_node_id": "nat", "main_succ_id": "nat", "inner_stable_motif": "space", "tape_": "qtape"},
+         loopvars={"scc_node_id": "nat", "scc_node_succ": "nat"}, alias=["main_data", "attach_data"], fuels=[]),
 ]
 
 class Fn:
@@ -123,6 +129,30 @@ class Fn:
         return None
 
     def expr(self, e, want=None):
+        if self.spec.get("scc"):
+            if isinstance(e, ast.Subscript) and isinstance(e.slice, ast.Constant) and e.slice.value == "space" and isinstance(e.value, ast.Call) \
+                    and isinstance(e.value.func, ast.Attribute) and e.value.func.attr == "node_data" and isinstance(e.value.func.value, ast.Name) \
+                    and e.value.func.value.id == "scc_sd" and len(e.value.args) == 1:
+                a = self.expr(e.value.args[0])
+                if a[2] != "nat" or a[1]: fail(e, "node id")
+                return (f"(only_on B (n_space (get scc_sd {a[0]})))", False, "space")
+            if isinstance(e, ast.Subscript) and isinstance(e.value, ast.Name) and self.env.get(e.value.id) == "idmap" and isinstance(e.ctx, ast.Load):
+                k = self.expr(e.slice)
+                if k[2] != "nat" or k[1]: fail(e, "map key")
+                return (f"(idmap_get {e.value.id} {k[0]})", True, "nat")              # KeyError
+            if isinstance(e, ast.Dict) and len(e.keys) == 1 and want == "idmap":
+                k, v = self.expr(e.keys[0]), self.expr(e.values[0])
+                if k[2] != "nat" or v[2] != "nat" or k[1] or v[1]: fail(e, "map literal")
+                return (f"[({k[0]}, {v[0]})]", False, "idmap")
+            if isinstance(e, ast.Compare) and len(e.ops) == 1 and isinstance(e.ops[0], ast.NotEq):
+                a, b = self.expr(e.left), self.expr(e.comparators[0])
+                if a[2] == "nat" and b[2] == "nat":
+                    return self.map2(a, b, lambda x, y: f"(negb (Nat.eqb {x} {y}))", "bool")
+            if isinstance(e, ast.Call) and isinstance(e.func, ast.Name) and e.func.id == "len" and len(e.args) == 1 and isinstance(e.args[0], ast.Name) and not e.keywords:
+                if e.args[0].id == "scc_sd": return ("(size scc_sd)", False, "nat")
+                if self.env.get(e.args[0].id) == "idmap": return (f"(length {e.args[0].id})", False, "nat")
+            if isinstance(e, ast.Subscript) and isinstance(e.slice, ast.Constant) and e.slice.value == "skipped" and isinstance(e.value, ast.Name) and e.value.id in self.alias:
+                return (f"(n_skip (get sd_ {self.alias[e.value.id]}))", False, "bool")    # None / False / True read as a truth value
         if isinstance(e, ast.Name):
             if e.id.endswith("_") and e.id in self.alias.values(): return (e.id, False, "nat")       # captured id of an alias
             if e.id not in self.env: fail(e, "unknown name")
@@ -239,6 +269,27 @@ class Fn:
                 if a[2] != "space" or b[2] != "space": fail(e, "space arguments")
                 if f.id == "intersect": return self.map2(a, b, lambda x, y: f"(intersect {x} {y})", "optspace")
                 return self.map2(a, b, lambda x, y: f"(subspace {x} {y})", "bool")
+            if self.spec.get("scc") and isinstance(f, ast.Attribute) and isinstance(f.value, ast.Name) and f.value.id == "scc_sd" and not e.keywords:
+                # reads of the (fully built) sub-diagram; its spaces are dicts over the component's variables B only
+                if f.attr == "root" and not e.args: return ("0", False, "nat")
+                if f.attr == "node_ids" and not e.args: return ("(seq 0 (size scc_sd))", False, "natlist")
+                if f.attr == "node_is_minimal" and len(e.args) == 1:
+                    a = self.expr(e.args[0])
+                    if a[2] != "nat" or a[1]: fail(e, "node id")
+                    return (f"(is_minimal scc_sd {a[0]})", False, "bool")
+                if f.attr == "node_successors" and len(e.args) == 1:
+                    a = self.expr(e.args[0])
+                    if a[2] != "nat" or a[1]: fail(e, "node id")
+                    return (f"(if n_exp (get scc_sd {a[0]}) then Some (Diagram.successors scc_sd {a[0]}) else None)", True, "natlist")
+                if f.attr == "edge_stable_motif" and len(e.args) == 2:
+                    a, b = self.expr(e.args[0]), self.expr(e.args[1])
+                    if a[2] != "nat" or b[2] != "nat" or a[1] or b[1]: fail(e, "edge ids")
+                    return (f"(only_on B (first_motif scc_sd {a[0]} {b[0]}))", False, "space")
+            if self.spec.get("scc") and isinstance(f, ast.Name) and f.id == "len" and len(e.args) == 1 and isinstance(e.args[0], ast.Name) and e.args[0].id == "scc_sd":
+                return ("(size scc_sd)", False, "nat")
+            if self.spec.get("scc") and isinstance(f, ast.Name) and f.id == "len" and len(e.args) == 1 and isinstance(e.args[0], ast.Name) \
+                    and self.env.get(e.args[0].id) == "idmap":
+                return (f"(length {e.args[0].id})", False, "nat")
             if isinstance(f, ast.Attribute) and self.is_sd(f.value) and f.attr == "node_successors" and len(e.args) == 1 and not e.keywords:
                 a = self.expr(e.args[0])                                        # without compute: KeyError on an unexpanded node
                 if a[2] != "nat" or a[1]: fail(e, "node id")
@@ -388,6 +439,10 @@ class Fn:
             return self.block(rest)                                   # docstring
         if self.is_debug_block(s):
             return self.block(rest)                                   # if sd.config["debug"]: print(...)
+        if self.spec.get("scc"):
+            r = self.scc_stmt(s, rest)
+            if r is not None:
+                return r
         if isinstance(s, ast.FunctionDef):
             if s.name not in self.nested: fail(s, "nested function that was not translated")
             return self.block(rest)                                   # translated separately (see translate())
@@ -603,6 +658,75 @@ class Fn:
             return self.seq(head, rest)
         fail(s, "unsupported statement")
 
+    def scc_stmt(self, s, rest):
+        """statement forms of attach_scc_subdiagram (two diagrams, the candidate-query tape, direct node-data assignments)"""
+        isc = lambda v, c: isinstance(v, ast.Constant) and v.value is c
+        # return X  (the remaining tape is part of the result)
+        if isinstance(s, ast.Return) and s.value is not None:
+            t = self.expr(s.value)
+            if t[2] != "natlist" or t[1]: fail(s, "return value")
+            return f"(SRet sd_ ({t[0]}, tape_))"
+        # if len(scc_sd.node_attractor_candidates(X, compute=True)) == 0: BODY   -- the next entry of the query tape
+        if isinstance(s, ast.If) and not s.orelse and isinstance(s.test, ast.Compare) and len(s.test.ops) == 1 and isinstance(s.test.ops[0], ast.Eq) \
+                and isinstance(s.test.comparators[0], ast.Constant) and s.test.comparators[0].value == 0 and type(s.test.comparators[0].value) is int \
+                and isinstance(s.test.left, ast.Call) and isinstance(s.test.left.func, ast.Name) and s.test.left.func.id == "len" and len(s.test.left.args) == 1:
+            c = s.test.left.args[0]
+            if isinstance(c, ast.Call) and isinstance(c.func, ast.Attribute) and c.func.attr == "node_attractor_candidates" and isinstance(c.func.value, ast.Name) \
+                    and c.func.value.id == "scc_sd" and len(c.args) == 1 and len(c.keywords) == 1 and c.keywords[0].arg == "compute" and isc(c.keywords[0].value, True):
+                a = self.expr(c.args[0])
+                if a[2] != "nat" or a[1]: fail(s, "candidate query node")
+                self.need_state("tape_", s)
+                al0 = dict(self.alias)
+                body = self.block(s.body)
+                self.alias = al0
+                # Some true: no candidates; Some false: candidates; anything else: the computation raised (RuntimeError)
+                head = (f"(match tape_ with Some b_ :: t_ => let tape_ := t_ in if b_ then {body} else {self.nxt()} "
+                        f"| _ => SRaise sd_ (RRaised ErrLimit) end)")
+                return self.seq(head, rest)
+        # node_id_map[k] = v
+        if isinstance(s, ast.Assign) and len(s.targets) == 1 and isinstance(s.targets[0], ast.Subscript) and isinstance(s.targets[0].value, ast.Name) \
+                and self.locs.get(s.targets[0].value.id) == "idmap":
+            name = s.targets[0].value.id
+            self.need_state(name, s)
+            k, v = self.expr(s.targets[0].slice), self.expr(s.value)
+            if k[2] != "nat" or v[2] != "nat" or k[1] or v[1]: fail(s, "map assignment")
+            return self.guard(f"(idmap_set {name} {k[0]} {v[0]})", False, name, self.block(rest))
+        # X = sd._ensure_node(parent_id=None, stable_motif=S)
+        if isinstance(s, ast.Assign) and len(s.targets) == 1 and isinstance(s.targets[0], ast.Name) and self.is_call(s.value, "_ensure_node") \
+                and self.is_sd(s.value.func.value) and not s.value.args:
+            kw = {k.arg: k.value for k in s.value.keywords}
+            name = s.targets[0].id
+            if set(kw) != {"parent_id", "stable_motif"} or not isc(kw["parent_id"], None) or self.locs.get(name) != "nat": fail(s, "_ensure_node keywords")
+            self.need_state(name, s)
+            m = self.expr(kw["stable_motif"])
+            if m[2] != "space" or m[1]: fail(s, "motif")
+            return f"(let '(d1_, c_) := ensure_node N sd_ None {m[0]} in let sd_ := d1_ in let {name} := c_ in {self.block(rest)})"
+        # sd._ensure_edge(a, b, m)
+        if isinstance(s, ast.Expr) and self.is_call(s.value, "_ensure_edge") and self.is_sd(s.value.func.value) and len(s.value.args) == 3 and not s.value.keywords:
+            a, b, m = (self.expr(x) for x in s.value.args)
+            if a[2] != "nat" or b[2] != "nat" or m[2] != "space" or a[1] or b[1] or m[1]: fail(s, "_ensure_edge arguments")
+            return f"(let sd_ := ensure_edge sd_ {a[0]} {b[0]} {m[0]} in {self.block(rest)})"
+        # sd.node_data(i)["attractor_seeds" | "attractor_sets"] = []   -- "none in this node": the ghost tag of the node as it is now
+        if isinstance(s, ast.Assign) and len(s.targets) == 1 and isinstance(s.targets[0], ast.Subscript) and isinstance(s.targets[0].slice, ast.Constant) \
+                and s.targets[0].slice.value in ("attractor_seeds", "attractor_sets") and isinstance(s.value, ast.List) and not s.value.elts \
+                and isinstance(s.targets[0].value, ast.Call) and isinstance(s.targets[0].value.func, ast.Attribute) and s.targets[0].value.func.attr == "node_data" \
+                and self.is_sd(s.targets[0].value.func.value) and len(s.targets[0].value.args) == 1:
+            a = self.expr(s.targets[0].value.args[0])
+            if a[2] != "nat" or a[1]: fail(s, "node id")
+            setter = {"attractor_seeds": "set_seeds", "attractor_sets": "set_sets"}[s.targets[0].slice.value]
+            return f"(let sd_ := upd_node sd_ {a[0]} (fun y_ => {setter} y_ (Some (cur_tag sd_ {a[0]}))) in {self.block(rest)})"
+        # for x in <raising natlist expression>
+        if isinstance(s, ast.For) and isinstance(s.target, ast.Name) and self.spec["loopvars"].get(s.target.id) == "nat" and not s.orelse:
+            it = self.expr(s.iter)
+            if it[2] == "natlist" and it[1]:
+                al0, pn0 = dict(self.alias), dict(self.pn_of)
+                body = self.block(s.body)
+                self.alias, self.pn_of = al0, pn0
+                head = (f"(match {it[0]} with Some l_ => s_for l_ (fun {s.target.id} sd_ (st_ : {self.st_ty()}) => let {self.st_pat()} := st_ in "
+                        f"({body} : {self.flow_ty()})) sd_ {self.st_tuple()} | None => SBad sd_ end)")
+                return self.seq(head, rest)
+        return None
+
     def seq(self, head, rest):
         if not rest:
             return head
@@ -640,8 +764,10 @@ def assigned_locals(fn_node, locs):
                     if isinstance(x, ast.Name): add(x.id)
         if isinstance(n, ast.Call) and isinstance(n.func, ast.Attribute) and n.func.attr == "pop" and isinstance(n.func.value, ast.Name):
             add(n.func.value.id)
-        if isinstance(n, ast.Call) and isinstance(n.func, ast.Attribute) and n.func.attr == "node_percolated_nfvs":
+        if isinstance(n, ast.Call) and isinstance(n.func, ast.Attribute) and n.func.attr in ("node_percolated_nfvs", "node_attractor_candidates"):
             add("tape_")
+        if isinstance(n, ast.Assign) and isinstance(n.targets[0], ast.Subscript) and isinstance(n.targets[0].value, ast.Name):
+            add(n.targets[0].value.id)
     return out
 
 def pretty(t):
@@ -686,6 +812,7 @@ def translate_one(spec, node, cname, outer=None):
     sig = " ".join(f"({x} : {COQ_TY[t]})" for x, t in spec["args"])
     if spec.get("tape"): sig = "(tape : list space) " + sig
     if spec.get("min_tape"): sig = "(min_tape : list space) (tape : list (list nat)) " + sig
+    if spec.get("scc"): sig = "(B : list nat) (tape : list (option bool)) " + sig
     init = "".join(f"let {v} := {DFLT[locs[v]]} in " for v in fn.state)
     is_sub = "__" in spec["name"]
     parts.append(f"(* {spec['path']}: def {spec['name'].replace('__', ' / ')}(sd, {', '.join(x for x, _ in spec['args'])}) *)")
@@ -694,20 +821,26 @@ def translate_one(spec, node, cname, outer=None):
         parts.append(f"  {init}")
         parts.append("  s_close\n" + textwrap.indent(pretty(f"({body} : {fn.flow_ty()})"), "    ") + ".")
     else:
-        parts.append(f"Definition {cname} (fuel : nat) (N : net) (cfg : config) (sd_ : sd) {sig} : sd * result :=")
-        parts.append(f"  {init}")
-        parts.append("  s_finish\n" + textwrap.indent(pretty(f"({body} : {fn.flow_ty()})"), "    ") + ".")
+        if spec.get("scc"):
+            parts.append(f"Definition {cname} (N : net) (cfg : config) (sd_ : sd) {sig} : sflow {COQ_TY[fn.ret]} unit :=")
+            parts.append(f"  {init}")
+            parts.append("  s_close\n" + textwrap.indent(pretty(f"({body} : {fn.flow_ty()})"), "    ") + ".")
+        else:
+            parts.append(f"Definition {cname} (fuel : nat) (N : net) (cfg : config) (sd_ : sd) {sig} : sd * result :=")
+            parts.append(f"  {init}")
+            parts.append("  s_finish\n" + textwrap.indent(pretty(f"({body} : {fn.flow_ty()})"), "    ") + ".")
     parts.append("")
     return parts
 
 def translate(fname, names):
     ext = any(s_.get("tape") or s_.get("min_tape") for s_ in FUNCS if s_["name"] in names)
     aseeds = any(s_.get("min_tape") for s_ in FUNCS if s_["name"] in names)
+    scc = any(s_.get("scc") for s_ in FUNCS if s_["name"] in names)
     parts = [f"(* {fname} -- GENERATED by tools/py2coq_sd.py from the current sources of /repo/biobalm/_sd_algorithms; do not edit.",
              "   Each definition is the translation of the Python function of the same name (embedding: PyLibSd.v" + (", PyLibSd2.v" if ext else "") + ").",
              "   PySrcSdFacts.v / PySrcSdTargetFacts.v / PySrcSdMinFacts.v prove them equal to the model's strategy functions of Diagram.v. *)",
              "From Coq Require Import List Bool Arith.", "Import ListNotations.",
-             "From BB Require Import BN" + (" Brute Candidates Blocks" if aseeds else "") + " Diagram PyLib PyLibSd" + (" PyLibCore PyLibSd2" if ext else "") + (" PySrcSdMin" if aseeds else "") + ".", ""]
+             "From BB Require Import BN" + (" Brute Candidates Blocks" if aseeds else "") + " Diagram PyLib PyLibSd" + (" PyLibCore PyLibSd2" if ext else "") + (" PySrcSdMin" if aseeds else "") + (" Brute Blocks SCC PyLibCore PyLibSd2 PyLibScc" if scc else "") + ".", ""]
     for spec in FUNCS:
         name, path = spec["name"], spec["path"]
         if name not in names: continue
@@ -728,7 +861,8 @@ def translate(fname, names):
             raise Unsupported(f"{name}: default values changed")
         if node.decorator_list: raise Unsupported(f"{name}: decorators")
         parts += translate_one(spec, node, "py_" + name)
-        parts += wrapper(spec)
+        if not spec.get("no_wrapper"):
+            parts += wrapper(spec)
     return "\n".join(parts)
 
 def wrapper(spec):
